@@ -163,8 +163,11 @@ CLAIMS = {
         "hessForward/Central/Central2_quadratic(+_diag): for every f that is quadratic along the coordinate pair, every step h, every n, the "
         "three real-step formulas (Ridout eq. 7, 9, 8) return the exact second derivative; quadratic_form_along: c + g.x + x'Qx/2 with "
         "symmetric Q satisfies that hypothesis for every n; hessian_constant_table (all later stages return Q[i][j]); hessdiag_exact "
-        "(Hessdiag = n=2 pipeline on the line function, exact below 2 + method_order). Tie: the four real-step difference functions on "
-        "dyadic polynomials = Rat model exactly. Partial: Ridout eq. 10 (complex) and the bicomplex formula are covered by the search only.",
+        "(Hessdiag = n=2 pipeline on the line function, exact below 2 + method_order). hessComplex_quadratic (Ridout eq. 10 over C) and "
+        "hessMulticomplex_quadratic (imag12 of a polynomial evaluated with the generated Bicomplex + and *, via the idempotent components) "
+        "give the same exactness for the complex-step and bicomplex formulas. Tie: all six difference functions on dyadic polynomials = "
+        "the exact model (Rat, Gaussian rationals, generated Bicomplex ring over Gaussian rationals). Partial: rounding; non-quadratic f "
+        "(search).",
    technique="Lean 4 proof (symmetry by construction, exactness on quadratics by ring identities) + exact correspondence on dyadic data"),
  'C09': dict(
    text="Lean 4 state-machine model of what persists between calls: the global rule cache (association list, only write = (key, compute key)), "
